@@ -31,6 +31,7 @@ const (
 	gF           // yield from child()
 	gV           // x = yield from child() ; vh.log(T, x)
 	gI           // yield from [T, T+50]   (a delegate that is not a generator: no send())
+	gW           // try: body  finally: x = yield T ; vh.log(T, x)   (suspension inside the finally clause)
 )
 
 type gitem struct {
@@ -62,6 +63,8 @@ func gstr(items []*gitem) string {
 			parts = append(parts, "L["+gstr(it.body)+"]")
 		case gT:
 			parts = append(parts, "T["+gstr(it.body)+"]")
+		case gW:
+			parts = append(parts, "W["+gstr(it.body)+"]")
 		case gF:
 			parts = append(parts, "F("+gstr(it.body)+")")
 		case gV:
@@ -116,7 +119,7 @@ func (e *genum) items(s int) []*gitem {
 	}
 	var out []*gitem
 	for _, b := range e.all(s - 1) {
-		for _, k := range []gk{gL, gT, gF, gV} {
+		for _, k := range []gk{gL, gT, gW, gF, gV} {
 			out = append(out, &gitem{k: k, body: b})
 		}
 	}
@@ -152,7 +155,7 @@ func (e *genum) all(n int) [][]*gitem {
 func gOwnYield(items []*gitem) bool {
 	for _, it := range items {
 		switch it.k {
-		case gY, gX, gF, gV, gI:
+		case gY, gX, gF, gV, gI, gW:
 			return true
 		case gL, gT:
 			if gOwnYield(it.body) {
@@ -210,6 +213,12 @@ func gRenderItems(b *strings.Builder, fn string, ind, depth int, items []*gitem,
 			gRenderItems(b, fn, ind+1, depth, it.body, defs)
 			b.WriteString(pad + "finally:\n")
 			b.WriteString(pad + "    vh.log(" + t + ", x)\n")
+		case gW:
+			b.WriteString(pad + "try:\n")
+			gRenderItems(b, fn, ind+1, depth, it.body, defs)
+			b.WriteString(pad + "finally:\n")
+			b.WriteString(pad + "    x = yield " + t + "\n")
+			b.WriteString(pad + "    vh.log(" + t + ", x)\n")
 		case gF, gV:
 			child := fmt.Sprintf("%s_c%d", fn, it.id)
 			gRenderFn(child, it.body, defs)
@@ -249,6 +258,7 @@ type gmodel struct {
 	path   []int
 	frames []*gframe
 	susp   string
+	pend   []string // outcomes pending while finally clauses run
 }
 
 func gTag(it *gitem, f *gframe) string {
@@ -275,6 +285,7 @@ func (m *gmodel) yield(v string) (string, bool) {
 	for _, f := range m.frames {
 		b.WriteString("|" + f.x)
 	}
+	fmt.Fprint(&b, m.pend)
 	m.susp = b.String()
 	return "", false
 }
@@ -345,6 +356,24 @@ func (m *gmodel) item(it *gitem, f *gframe) gout {
 		if o.k == oSusp {
 			return o // a suspended generator does not run its pending finally
 		}
+		m.ev = append(m.ev, "("+gTag(it, f)+","+f.x+")")
+		return o
+	case gW:
+		o := m.block(it.body, f)
+		if o.k == oSusp {
+			return o
+		}
+		// the finally clause suspends the generator while the way the body ended (fell
+		// through, return value, exception) is pending; it takes effect after the clause
+		m.path = append(m.path, -1-o.k)
+		m.pend = append(m.pend, fmt.Sprintf("%d:%s", o.k, o.v))
+		s, ok := m.yield(gTag(it, f))
+		if !ok {
+			return gout{k: oSusp}
+		}
+		m.path = m.path[:len(m.path)-1]
+		m.pend = m.pend[:len(m.pend)-1]
+		f.x = s
 		m.ev = append(m.ev, "("+gTag(it, f)+","+f.x+")")
 		return o
 	case gF, gV:
@@ -879,6 +908,10 @@ func c05Run(rc *core.RunCtx) {
 		return
 	}
 	c05PartC(rc)
+	if rc.Expired() || rc.Done() {
+		return
+	}
+	c05PartD(rc)
 }
 
 func init() {
@@ -886,11 +919,12 @@ func init() {
 		ID:    "C05",
 		Level: "model_checking",
 		Rule: "(a) explicit-state breadth-first search over histories of {next(g), g.send(7), g.send(None)} on one live generator (history <= 6 / 8) and of {next, send(7)} on two live generators (two instances of one function, or two functions), for EVERY generator function of a statement DSL with <= 4 (quick) / <= 5 (thorough) items (plus, with the item `yield from [T, T+50]` (no send(): AttributeError inside the generator), every shape containing it with <= 3 / <= 4 items) " +
-			"(pairs: <= 2 x <= 2 items and same-function pairs <= 3 / <= 3 x <= 2 and <= 4): items {yield T, x = yield T; log(T, x), log(T, x), return T, raise ValueError, for i in range(2): body, try: body finally: log(T, x), yield from child(), x = yield from child(); log(T, x)}, child = a nested shape, T = item id + 100*loop indices; return/raise only last in a block. " +
+			"(pairs: <= 2 x <= 2 items and same-function pairs <= 3 / <= 3 x <= 2 and <= 4): items {yield T, x = yield T; log(T, x), log(T, x), return T, raise ValueError, for i in range(2): body, try: body finally: log(T, x), try: body finally: x = yield T; log(T, x) (suspension inside the finally clause while a return value or an exception is pending), yield from child(), x = yield from child(); log(T, x)}, child = a nested shape, T = item id + 100*loop indices; return/raise only last in a block. " +
 			"Model: coroutine-style interpreter in Go (trace of log entries between resumptions; sent value = value of the yield expression; send(non-None) before the start = TypeError and the generator can still be started; return v = StopIteration with args (v,), falling off = args (); raised = exhausted; exhausted stays exhausted (twice); finally runs at completion/raise, not at suspension; yield from forwards next/send and evaluates to the child's return value). " +
 			"State = (position path, loop indices, x of every live frame, started/exhausted+cause); successors by replay of the history on fresh generators plus one operation; each transition is executed through compiled Python (next()/send()/except StopIteration as e: e.args, e.value) AND through the Go API (py.Call, py.Next, py.Send). " +
 			"(b) full product of 52 consumers (for/else, for+break, for in a function, list/set/dict/nested comprehension, generator expression under list() and tuple(), unpack 2/3, a,*b and *a,b, f(*it), list, tuple, set, bytes, sum (with/without start), min, max, sorted (plain/reverse), zip (it first/second x long/short partner), map (1 and 2 iterables), filter (None, function), enumerate, any, all, in (found/absent), not in, str.join, list.extend, list +=, next(it, default), while/next()/except StopIteration, made-but-unconsumed then one step of map/zip/filter/enumerate/genexp, py.SequenceTuple/SequenceList/SequenceSet/Iterate from Go) x 141 producers {generator function, class with __iter__/__next__, class with only __getitem__, each also behind map(f, zip(p, range(5))), map with a raising function over a list: failure position 0-2 x raised {StopIteration, StopIteration(), StopIteration(9), ValueError, KeyError, IndexError} or no failure; list iterator and range of length 0-3}; every user producer logs each step; the model predicts the result, the escaping exception type and the exact sequence of producer steps (IndexError ends only the __getitem__ protocol). Both models agree with CPython 3.11 on every case outside PEP 479 (scripts/c05_crosscheck.py). " +
-			"(c) a generator that tries to resume itself (next / send, 1-3 attempts per activation, 1-3 activations, driven by next or send): every attempt is refused with ValueError and nothing else changes.",
+			"(c) a generator that tries to resume itself (next / send, 1-3 attempts per activation, 1-3 activations, driven by next or send): every attempt is refused with ValueError and nothing else changes. " +
+			"(d) 9 lazy wrappers (iter, map, filter, enumerate, zip with the producer first / second, generator expression, map over zip, enumerate over zip) stepped 6 times with next(), every outcome recorded, x producers {generator, class with __next__ (carries on after raising), map over a raising function (carries on), list, range} x failure position x raised class: the model gives every step's value or exception and the producer's step log - a wrapper never ends on anything but StopIteration, never stays ended on its own account, and loses exactly the items Python loses.",
 		Run: c05Run,
 		Assumptions: []string{
 			"Python 3.4 semantics: no PEP 479, a StopIteration raised in a generator body ends the generator",
